@@ -26,7 +26,7 @@ def _untouched(S, env, rank):
 
 class Reduce(Contract):
     """a.<f>(axis=d, skipna=...) for f in sum, prod, mean, var, std, min, max, ptp, all, any: the values are NumPy's own f
-    (np.<f>, or np.nan<f> under skipna=True) over .values along the position of d -- d given by name or by position --, the
+    (np.<f>, or np.nan<f> under skipna=True) over .values along the position of d -- d given by name, by position or by position counted from the end --, the
     result is labelled with the remaining axes (the operand's own Axis objects) in their original order and carries the
     metadata; axis=None, and any axis of a 1-d array, give NumPy's scalar.  Stated relative to NumPy, as the property is: the
     model treats np.<f> as an uninterpreted function of (array content, axis, keywords).  [C08]"""
@@ -42,7 +42,9 @@ class Reduce(Contract):
                 for rank in (1, 2, 3):
                     if rank == 3 and tier == "quick" and func not in ("sum", "min"):
                         continue
-                    for axis in ["none"] + ["name%d" % d for d in range(rank)] + ["pos%d" % d for d in range(rank)]:
+                    # neg<d>: the dimension at position d counted FROM THE END (axis = d - rank, as NumPy and GroupBy spell it)
+                    negs = ["neg%d" % d for d in range(rank)] if func in ("sum", "max", "mean") and rank > 1 else []
+                    for axis in ["none"] + ["name%d" % d for d in range(rank)] + ["pos%d" % d for d in range(rank)] + negs:
                         yield {"name": "%s-%s-r%d-%s" % (func, "skipna" if skipna else "plain", rank, axis), "func": func, "skipna": skipna,
                                "rank": rank, "axis": axis}
         # integer and boolean data (the statement quantifies over float / int / bool arrays): which NumPy function is applied to
@@ -63,6 +65,8 @@ class Reduce(Contract):
         if a == "none":
             return None, None
         d = int(a[-1])
+        if a.startswith("neg"):
+            return d, d - case["rank"]
         return d, ("x%d" % d if a.startswith("name") else d)
 
     def call(self, fn, env):
